@@ -215,7 +215,7 @@ PROPS["C02"] = {
     "level": "translation_validation",
     "prepare": g_prepare,
     "jobs": [],
-    "designs": ["a1", "a2", "a3", "a4", "a5", "a6"],
+    "designs": ["a1", "a2", "a3", "a4", "a5", "a6", "a7"],
     "harness_tag": "c02",
     "quick": r"^VerifC02_", "thorough": r"^VerifC02T?_",
     "shards": {"a1_put": 4},
@@ -229,7 +229,7 @@ PROPS["C03"] = {
     "level": "translation_validation",
     "prepare": g_prepare,
     "jobs": [],
-    "designs": ["a1", "a2", "a3", "a5", "a6"],
+    "designs": ["a1", "a2", "a3", "a5", "a6", "a7"],
     "harness_tag": "c03",
     "assert_exclude": r"^openapi:",
     "quick": r"^VerifC03_", "thorough": r"^VerifC03T?_",
@@ -309,7 +309,7 @@ PROPS["C20"] = {
     },
 }
 
-ALL_DESIGNS = ["v1", "v2", "v3", "v4", "v5", "v6", "v7", "d1", "a1", "a2", "a3", "a4", "a5", "e1", "e2", "e3", "s1", "s2", "s3", "w1", "w2", "w3", "p1", "c1", "c2", "c3", "c4", "c5", "c6", "c7", "c8", "a6"]
+ALL_DESIGNS = ["v1", "v2", "v3", "v4", "v5", "v6", "v7", "d1", "a1", "a2", "a3", "a4", "a5", "e1", "e2", "e3", "s1", "s2", "s3", "w1", "w2", "w3", "p1", "c1", "c2", "c3", "c4", "c5", "c6", "c7", "c8", "c9", "a6", "a7"]
 
 PROPS["C01"] = {
     "level": "other",
